@@ -159,6 +159,29 @@ func (e *Engine) registerHTTP() {
 		return TupleV{ok, creds, err}
 	})
 
+	// ---- the Kerberos client as seen by the SPNEGO client (stub set "ticketstub") ------------------------------
+	gst := "(*github.com/jcmturner/gokrb5/v8/client.Client).GetServiceTicket"
+	e.stub("ticketstub", gst, &stubSpec{outs: []string{"ret0", "ret1"}, hasErr: true}, func(r *Run, fr *Frame, cc *ssa.CallCommon, a []Value) Value {
+		res := e.fnByName[gst].Signature.Results()
+		tt, kt := res.At(0).Type(), res.At(1).Type()
+		if r.branch(Eq(r.hvar(1), BVu(1, 1))) {
+			t, k := r.havoc(tt), r.havoc(kt)
+			r.logStub(gst, "val", []Value{t, k}, []types.Type{tt, kt})
+			return TupleV{t, k, &IfaceV{}}
+		}
+		r.logStub(gst, "err", nil, nil)
+		return TupleV{zeroValue(tt), zeroValue(kt), r.errNew(fr, "stub: could not get service ticket")}
+	})
+	aff := "(*github.com/jcmturner/gokrb5/v8/client.Client).AffirmLogin"
+	e.stub("ticketstub", aff, &stubSpec{hasErr: true}, func(r *Run, fr *Frame, cc *ssa.CallCommon, a []Value) Value {
+		if r.branch(Eq(r.hvar(1), BVu(1, 1))) {
+			r.logStub(aff, "val", nil, nil)
+			return &IfaceV{}
+		}
+		r.logStub(aff, "err", nil, nil)
+		return r.errNew(fr, "stub: could not get valid TGT")
+	})
+
 	// ---- types.GetHostAddress: any address or an error ---------------------------------------------------
 	hname := "github.com/jcmturner/gokrb5/v8/types.GetHostAddress"
 	e.stub("hoststub", hname, &stubSpec{outs: []string{"ret0"}, hasErr: true}, func(r *Run, fr *Frame, cc *ssa.CallCommon, a []Value) Value {
